@@ -21,7 +21,11 @@ NAMES = ['a', 'b', 'c', 'd', 'e', 'f', 'g', 'h']
 class SymSet:
     """frozenset model: bit i set <=> NAMES[i] in the set."""
     __slots__ = ('bv', 'n')
-    __hash__ = None
+
+    def __hash__(self):
+        # a frozenset is hashable: the contents are concretised (one path per feasible value of the bit-vector)
+        from vk import engine
+        return hash(('SymSet', engine.current().concretize(z3.BV2Int(self.bv))))
 
     def __init__(self, bv, n):
         self.bv = bv
@@ -379,9 +383,109 @@ def triple(mask, outs, n):
     return h
 
 
+import mosaik_api_v3
+
+SEQ_META = {}
+
+
+class MetaSim(mosaik_api_v3.Simulator):
+    """an in-process simulator that announces the meta the harness prepared"""
+    def __init__(self):
+        super().__init__({'api_version': '3.0', 'type': 'time-based', 'models': {}})
+
+    def init(self, sid, time_resolution, which=0):
+        self.meta = SEQ_META[which]
+        return self.meta
+
+    def create(self, num, model):
+        return [{'eid': f'{model}{i}', 'type': model} for i in range(num)]
+
+    def step(self, time, inputs, max_advance):
+        return time + 1
+
+    def get_data(self, outputs):
+        return {}
+
+
+def start_seq(typ, any_inputs, present1, present2, n):
+    """World.start() of simulators whose meta carries TWO model descriptions (contents symbolic), and of a second simulator
+    with the two descriptions swapped: every description must be classified as if it were the only one (histories of length
+    up to 4 of ModelMock construction in one process)."""
+    def h(eng):
+        import mosaik
+        from vk import modstate
+        modstate.reset_all()
+        sym = eng.mode == 'sym'
+        descs, pairs = [], []
+        for j, present in enumerate((present1, present2)):
+            d, pr = {'public': True, 'params': []}, {}
+            for k in present:
+                v = eng.bv(f'{k}{j + 1}', n)
+                if sym:
+                    d[k] = SymSet(v, n)
+                    pr[k] = (False, v)
+                else:
+                    d[k] = [NAMES[i] for i in range(n) if (v >> i) & 1]
+                    pr[k] = (False, z3.BitVecVal(v, n))
+            if any_inputs:
+                d['any_inputs'] = True
+            descs.append(d)
+            pairs.append(pr)
+        orc = [oracle(pr, any_inputs, typ, n) for pr in pairs]
+        rej_any = z3.simplify(z3.Or(orc[0][0], orc[1][0]))
+        fp = [typ, any_inputs, list(present1), list(present2)]
+        what = f'{typ} any_inputs={any_inputs} keys of M1={list(present1)} keys of M2={list(present2)}'
+        SEQ_META.clear()
+        SEQ_META[0] = {'api_version': '3.0', 'type': typ, 'models': {'M1': descs[0], 'M2': descs[1]}}
+        SEQ_META[1] = {'api_version': '3.0', 'type': typ, 'models': {'M1': descs[1], 'M2': descs[0]}}
+        names = ['non-trigger', 'trigger', 'persistent', 'non-persistent']
+        with patched(n, sym):
+            w = mosaik.World({'X': {'python': 'vk.kernels.c12:MetaSim'}}, skip_greetings=True)
+            try:
+                for which in (0, 1):
+                    try:
+                        f = w.start('X', which=which)
+                    except ValueError as e:
+                        eng.check(rej_any, 'C12.reject', f'start() #{which + 1} rejected although both descriptions are consistent: {what}: {str(e)[:200]}', {'fp': fp})
+                        return ('rejected', {'nontrivial': True})
+                    except ScenarioErrorT as e:
+                        eng.alarm('C12.reject', f'start() #{which + 1} failed with {type(e).__name__}: {str(e)[:200]}: {what}', {'fp': fp + ['scn']})
+                        return ('rejected', {'nontrivial': True})
+                    eng.check(z3.Not(rej_any), 'C12.accept', f'start() #{which + 1} accepted although the rule rejects one of the descriptions: {what}', {'fp': fp})
+                    for mname, oi in (('M1', which), ('M2', 1 - which)):
+                        mm = f.models[mname]
+                        got = [as_pair(x, n) for x in (mm.measurement_inputs, mm.event_inputs, mm.measurement_outputs, mm.event_outputs)]
+                        for nm, g, e in zip(names, got, orc[oi][1]):
+                            if e is None:
+                                continue
+                            eng.check(p_eq(g, e, n), 'C12.result', f'{nm} set of model {mname} of start() #{which + 1} differs from the rule applied to its own description: {what}',
+                                      {'fp': fp + [nm]})
+            finally:
+                try:
+                    w.shutdown()
+                except Exception:  # noqa
+                    pass
+        return ('accepted', {'nontrivial': True})
+    return h
+
+
+from mosaik.exceptions import ScenarioError as ScenarioErrorT
+
+
 def jobs(tier):
     n = 4 if tier == 'quick' else 8
     out = []
+    # two descriptions in one process (same keys, or one key more / less), through World.start()
+    ns = 3 if tier == 'quick' else 4
+    for typ in ('time-based', 'event-based', 'hybrid'):
+        for anyi in (False, True) if tier != 'quick' else (False,):
+            for r in range(len(KEYS) + 1):
+                for p1 in itertools.combinations(KEYS, r):
+                    for p2 in [p1] + [tuple(k for k in KEYS if (k in p1) != (k == t)) for t in KEYS]:
+                        if tier == 'quick' and p2 != p1 and len(p2) < len(p1):
+                            continue   # the swapped start covers the other order
+                        out.append({'id': f'seq|{typ}|any={int(anyi)}|{"+".join(p1) or "-"}|{"+".join(p2) or "-"}', 'harness': 'vk.kernels.c12:start_seq',
+                                    'params': {'typ': typ, 'any_inputs': anyi, 'present1': list(p1), 'present2': list(p2), 'n': ns}, 'budget_s': 120})
     for typ in ('time-based', 'event-based', 'hybrid'):
         for anyi in (False, True):
             for r in range(len(KEYS) + 1):
